@@ -58,11 +58,19 @@ def check_doc(job):
     try:
         sql = db.sql
     except Exception as e:   # noqa
-        return {'skip': 'render raised %s' % type(e).__name__}
+        # D5 (C08): the SQL of a reference passes through str.format, so a brace in anything a reference mentions may raise; a document
+        # whose references mention no brace must render
+        def has_brace(x):
+            return isinstance(x, str) and ('{' in x or '}' in x)
+        d5 = any(has_brace(v) for rf in exp['refs'] for v in [rf.get('name'), rf.get('comment'), rf['t1'][0], rf['t1'][1], rf['t2'][0], rf['t2'][1]]
+                 + list(rf['cols1']) + list(rf['cols2']))
+        if d5:
+            return {'skip': 'render raised %s (D5 domain)' % type(e).__name__}
+        return {'diffs': [('C03', 'the DDL of the parsed document cannot be rendered: %s.%s' % (type(e).__module__, type(e).__name__))], 'text': text}
     try:
         got = sqlread.read_ddl(sql)
     except (sqlread.ReadError, ValueError) as e:
-        return {'skip': 'read error'}
+        return {'diffs': [(sqloracle.read_error_owner(db), 'the DDL of the parsed document is not readable as the DDL the property describes: %r' % (e,))], 'text': text}
     try:
         spec_db = contentdb.build(exp)
     except Exception as e:   # noqa
